@@ -458,6 +458,13 @@ def position_runs(chk, n):
 
     rng = chk.rng
     base = datetime.datetime(2022, 1, 1)
+    # every other run: ONE constraint object applied to a sequence of
+    # different real files (each opened after the previous one was closed)
+    shared_since = base + datetime.timedelta(seconds=2)
+    shared = SearchConstraintSearchSince(
+        current_date=shared_since.strftime('%Y-%m-%d %H:%M:%S'),
+        ts_matcher_cls=TS, days=0, hours=0)
+    history = []
     for k in range(n):
         H = rng.choice([1, 2, 3, 4, 7, 8, 16, 256, 256])
         A = rng.choice([1, 2, 3, 8]) if H != 256 else 4096
@@ -484,13 +491,31 @@ def position_runs(chk, n):
         c = bytes(out)
         since = base + datetime.timedelta(
             seconds=rng.choice([-5, 0, 1, t // 2, t, t + 1]))
-        fd = NamedBytesIO(c)
+        path = None
+        if k % 2:
+            path = os.path.join(chk.work, f'c11_pos_{k}.log')
+            with open(path, 'wb') as f:
+                f.write(c)
+            if (k // 2) % 4 == 0:
+                # a new shared constraint every four files, its since date
+                # taken from the first of them
+                shared_since = base + datetime.timedelta(
+                    seconds=rng.choice([t // 2, t, 1]))
+                shared = SearchConstraintSearchSince(
+                    current_date=shared_since.strftime('%Y-%m-%d %H:%M:%S'),
+                    ts_matcher_cls=TS, days=0, hours=0)
+                history = []
+            fd = open(path, 'rb')
+            since = shared_since
+            chk.dist('position_shared_constraint_real_file')
+        else:
+            fd = NamedBytesIO(c)
         from searchkit.constraints import LogFileDateSinceSeeker as S
         saved_l = S.MAX_TRY_FIND_WITH_DATE_ATTEMPTS
         try:
             with Patched(H, A, 64):
                 S.MAX_TRY_FIND_WITH_DATE_ATTEMPTS = L
-                cons = SearchConstraintSearchSince(
+                cons = shared if path else SearchConstraintSearchSince(
                     current_date=since.strftime('%Y-%m-%d %H:%M:%S'),
                     ts_matcher_cls=TS, days=0, hours=0)
                 try:
@@ -500,6 +525,10 @@ def position_runs(chk, n):
                     pos = f'{type(exc).__name__}: {exc}'
         finally:
             S.MAX_TRY_FIND_WITH_DATE_ATTEMPTS = saved_l
+            fd.close()
+            if path:
+                os.unlink(path)
+                history.append(os.path.basename(path))
         chk.coverage['evaluations'] += 1
         ok = isinstance(pos, int) and (
             pos == 0 or pos == len(c) or (0 < pos <= len(c) and
@@ -511,7 +540,9 @@ def position_runs(chk, n):
             chk.violation('since-position-not-a-line-start', {
                 'content': list(c), 'since': str(since), 'position': pos,
                 'SEEK_HORIZON': H, 'MAX_SEEK_HORIZON_EXPAND': A,
-                'MAX_TRY_FIND_WITH_DATE_ATTEMPTS': L})
+                'MAX_TRY_FIND_WITH_DATE_ATTEMPTS': L,
+                'same_constraint_object_applied_before_to':
+                    history[-4:-1] if path else []})
         if k < 2:
             chk.sample({'position_run': {'len': len(c), 'H': H, 'A': A,
                                          'L': L, 'position': pos}})
@@ -531,6 +562,13 @@ def history_runs(chk, n):
         @property
         def patterns(self):
             return [HIST_PATTERN]
+
+    class TSFree(K.TimestampMatcherBase):
+        """ the same pattern without the leading ^: the library applies
+        patterns with match-at-start semantics """
+        @property
+        def patterns(self):
+            return [HIST_PATTERN[1:]]
 
     class NamedBytesIO(io.BytesIO):
         name = 'c11-history'
@@ -600,7 +638,8 @@ def history_runs(chk, n):
                     current_date=(base + datetime.timedelta(
                         seconds=rng.choice([0, t // 2, t + 1]))).strftime(
                             '%Y-%m-%d %H:%M:%S'),
-                    ts_matcher_cls=TS, days=0, hours=0)
+                    ts_matcher_cls=(TSFree if k % 2 else TS), days=0,
+                    hours=0)
                 seeker = S(NamedBytesIO(c), cons)
                 trace = []
                 for kind, o in ops:
